@@ -317,17 +317,3 @@ def write_baseline_counts(modnames):
     with open(BASELINE, "w") as f:
         json.dump(cur, f, indent=1, sort_keys=True)
     return out
-
-
-def write_baseline(modnames):
-    reg, cs = load_contracts(modnames)
-    try:
-        baseline = json.load(open(BASELINE))
-    except (OSError, ValueError):
-        baseline = {}
-    items = [(tuple(modnames), c.key, True) for c in cs]
-    for st, r in pmap(_verify_one, items, chunk=1, fresh=True):
-        if st == "ok" and r["status"] == "ok":
-            baseline[r["target"]] = sorted({o["label"] for o in r["obligations"] if o["status"] == "discharged"})
-    with open(BASELINE, "w") as f:
-        json.dump(baseline, f, indent=1, sort_keys=True)
